@@ -261,6 +261,30 @@ pub fn worker(ctx: &mut Ctx) {
             }
             None => ctx.report.finding("C14", "export-import.parse", text.len(), wit, || "exported ignore list does not parse".to_string()),
         }
+        // (3b) two lists merged with `append` ignore everything either of them ignored, also after a
+        //      round trip through JSON
+        if chosen.len() >= 2 {
+            let (left, right) = chosen.split_at(chosen.len() / 2);
+            let mut a = IgnoredLints::new();
+            for i in left {
+                a.ignore_lint(&lints[*i], &doc);
+            }
+            let mut b = IgnoredLints::new();
+            for i in right {
+                b.ignore_lint(&lints[*i], &doc);
+            }
+            let b2: Option<IgnoredLints> = serde_json::to_string(&b).ok().and_then(|s| serde_json::from_str(&s).ok());
+            if let Some(b2) = b2 {
+                a.append(b2);
+                let mut merged = lints.clone();
+                a.remove_ignored(&mut merged, &doc);
+                if merged != after {
+                    ctx.report.finding("C14", "append", text.len(), wit, || {
+                        format!("ignoring {} lints through two lists merged with append leaves {} lints, through one list {}", chosen.len(), merged.len(), after.len())
+                    });
+                }
+            }
+        }
         // (4) edits away from the lint keep it ignored
         let src: Vec<char> = text.chars().collect();
         for i in &chosen {
